@@ -424,6 +424,16 @@ func c07FilterSpec(c *Ctx, fn *ssa.Function, nl int, errTrue bool) DTXSpec {
 				if projFn != nil && name == fullFnName(projFn) {
 					id := idxOf(args[1])
 					in.effect("project", site.Pos(), kStr(id), args[0])
+					// a request for whole cards hands the object on as it is
+					// (decided for the projection itself by C07.project): the
+					// caller may as well take that decision once for all objects
+					if dr, ok := args[0].(Struct); ok {
+						if ap, props := fieldVal(dr, "AllProp"), fieldVal(dr, "Props"); ap != nil && props != nil {
+							if in.truth(ap) || len(in.sliceVal(props, site).E) == 0 {
+								return copyVal(args[1]), true
+							}
+						}
+					}
 					return Opaque{"projected(" + id + ")", site.Common().Signature().Results().At(0).Type()}, true
 				}
 				return nil, false
@@ -446,7 +456,7 @@ func c07FilterSpec(c *Ctx, fn *ssa.Function, nl int, errTrue bool) DTXSpec {
 			case Slice:
 				var ids []string
 				for _, e := range s.E {
-					ids = append(ids, keyOf(e.Get()))
+					ids = append(ids, wholeOrKey(e.Get()))
 				}
 				return "[" + strings.Join(ids, " ") + "]"
 			case Konst:
@@ -460,6 +470,13 @@ func c07FilterSpec(c *Ctx, fn *ssa.Function, nl int, errTrue bool) DTXSpec {
 			}
 			n := env.Len("aos", nl)
 			limit := env.Int("query.Limit")
+			whole := false
+			if env.Decided("query.DataRequest.AllProp") {
+				whole = env.Bool("query.DataRequest.AllProp")
+				if !whole && env.Decided("len(query.DataRequest.Props)") {
+					whole = env.Len("query.DataRequest.Props", 1) == 0
+				}
+			}
 			var out []string
 			for i := 0; i < n; i++ {
 				id := fmt.Sprintf("aos[%d].Path", i)
@@ -467,7 +484,11 @@ func c07FilterSpec(c *Ctx, fn *ssa.Function, nl int, errTrue bool) DTXSpec {
 				case 2:
 					return []string{"error"}, true
 				case 1:
-					out = append(out, "projected("+id+")")
+					if whole {
+						out = append(out, "whole("+id+")")
+					} else {
+						out = append(out, "projected("+id+")")
+					}
 				}
 				if limit > 0 && int64(len(out)) >= limit {
 					break
@@ -476,6 +497,30 @@ func c07FilterSpec(c *Ctx, fn *ssa.Function, nl int, errTrue bool) DTXSpec {
 			return []string{"[" + strings.Join(out, " ") + "]"}, true
 		},
 	}
+}
+
+// wholeOrKey renders an element of Filter's result: an object of the input
+// handed on with every field as it was is "whole(<its path>)".
+func wholeOrKey(v Val) string {
+	s, ok := v.(Struct)
+	if !ok || len(s.F) == 0 {
+		return keyOf(v)
+	}
+	st, ok := s.T.Underlying().(*types.Struct)
+	if !ok {
+		return keyOf(v)
+	}
+	first := keyOf(s.F[0].Get())
+	prefix := strings.TrimSuffix(first, "."+st.Field(0).Name())
+	if prefix == first {
+		return keyOf(v)
+	}
+	for i := range s.F {
+		if keyOf(s.F[i].Get()) != prefix+"."+st.Field(i).Name() {
+			return keyOf(v)
+		}
+	}
+	return "whole(" + first + ")"
 }
 
 func c07ProjectSpec(c *Ctx, fn *ssa.Function) DTXSpec {
